@@ -14,6 +14,9 @@ SHAPES = {
     "TSW": ("TSW", 3, 2),
     "TSDB": ("TSD", "int", B2), "TSDD": ("TSD", "int", ("TSD", "int", TSI)), "TSDS": ("TSD", "int", TSSI),
     "TSLS": ("TSL", TSSI, 2), "TSDL": ("TSD", "str", ("TSL", TSI, 2)),
+    # composite bundle fields that can be partially valid, and windows below a dictionary
+    "TSBL": ("TSB", (("a", TSI), ("l", ("TSL", TSI, 2)))), "TSBB": ("TSB", (("a", TSI), ("q", B2))),
+    "TSDW": ("TSD", "int", ("TSW", 3, 2)),
 }
 TYPED = ("TS", "TSS", "TSD", "TSL", "TSB", "TSW")
 
@@ -90,9 +93,16 @@ def apply(shape, state, delta):
     raise ValueError(shape)
 
 
+def has_window(shape):
+    return shape[0] == "TSW" or any(has_window(x) for x in shape[1:] if isinstance(x, tuple) and x and isinstance(x[0], str) and x[0].startswith("TS")) or (
+        shape[0] == "TSB" and any(has_window(s) for _, s in shape[1]))
+
+
 def is_valid(shape, state):
     k = shape[0]
-    if k in ("TS", "SIGNAL", "TSS", "TSD", "TSW"):
+    if k == "TSW":
+        return state is not None and len(state) >= shape[2]      # a tick-count window is valid once its minimum count is reached
+    if k in ("TS", "SIGNAL", "TSS", "TSD"):
         return state is not None
     if k == "TSL":
         return any(is_valid(shape[1], c) for c in state)
@@ -238,7 +248,7 @@ def gen_writer(rng, wid, shape_name, end, typed=False):
             script[t] = [list(o) for o in ops]
         else:
             ops = []
-            for _ in range(1 if shape_name == "TSW" else rng.choice((1, 1, 1, 2, 3))):
+            for _ in range(1 if has_window(shape) else rng.choice((1, 1, 1, 2, 3))):
                 if shape_name in ("TS", "TSStr") and rng.random() < 0.08 and state is not None:
                     ops.append(["inv", ""])
                     state = None
